@@ -1,4 +1,4 @@
-import CoapVerif.Lemmas.Oscore
+import CoapVerif.Lemmas.OscorePlain
 /-
 C14 — OSCORE protection round-trips, matches RFC 8613, and tampering is detected by the tag.
 
@@ -8,7 +8,11 @@ C14 — OSCORE protection round-trips, matches RFC 8613, and tampering is detect
 NOT a theorem: "every modification is rejected" — that is unforgeability of the MAC, a cryptographic
 assumption.  What is proved: the AEAD round-trips for every block function, decryption rejects
 exactly when the recomputed tag differs (or the input is shorter than a tag), and the inputs of the
-tag (AAD, nonce) determine kid / Partial IV / algorithm injectively.
+tag (AAD, nonce) determine kid / Partial IV / algorithm injectively (`aad_injective`, `nonce_injective`,
+from `cbor_head_injective` / `cbor_bstr_injective`); libcoap's helpers (M) equal S (`aad_eq_spec`,
+`nonce_eq_spec`, `option_value_eq_spec`, `split_eq_spec`, `info_eq_spec`); `unprotect ∘ protect` is the
+identity for requests and, up to the recipient's Observe value (D14.3), for responses (`unprotect_protect`).
+Helper lemmas: Lemmas/Oscore.lean, OscoreCbor.lean, OscoreNonce.lean, OscoreOpt.lean, OscorePlain.lean.
 -/
 namespace Coap.C14
 open Coap.Spec.Crypto Coap.Spec.Oscore
@@ -125,18 +129,10 @@ def Matching (cS cR : Ctx) : Prop :=
   cR.rid = cS.sid ∧ cR.recipientKey = cS.senderKey ∧ cR.commonIV = cS.commonIV ∧ cR.idctx = cS.idctx ∧ cR.alg = cS.alg
 
 /-- `unprotect ctxR (protect ctxS m) = ok m` for requests and matching contexts, for every block cipher,
-message, Partial IV and context — from `ccm_roundtrip`, `option_value_roundtrip` and
-`split_merge_inverse`.  PARTIAL in two respects: (1) the round-trip of the RFC 7252 option codec on
-the inner message (`hplain`) is a hypothesis here (it is C01's wire round-trip theorem; the inner
-plaintext is an ordinary option list + payload), (2) responses (`protectResponse` /
-`unprotectResponse`, where the result is `normalize false piv m`, D14.3) are covered by the
-differential runs only.  Full statement:
-  ∀ cipher cS cR m seq, Matching cS cR → sorted m.opts → no OSCORE option → seq ≤ maxSeq →
-    |sid| ≤ 7 → |idctx| ≤ 240 → option lengths ≤ 65804 →
-    (isRequest m.code → ∀ r, protectRequest cipher cS m seq = some r → unprotectRequest cipher cR r.1 = .ok m r.2) ∧
-    (¬isRequest m.code → ∀ b s r, protectResponse cipher cS b m s none = some r →
-        unprotectResponse cipher cR (some b) r = .ok (normalize false (piv of s / b) m) b) -/
-theorem unprotect_protect_partial (cipher : Bytes → Bytes → Bytes) (cS cR : Ctx) (m : Msg) (seq : Nat)
+message, Partial IV and context — from `ccm_roundtrip`, `option_value_roundtrip` and `split_merge_inverse`,
+given that the plaintext codec round-trips on the inner message (`hplain`).  `hplain` is discharged in
+`unprotect_protect_request` below (this is the cipher / option-value / option-split part of the argument). -/
+theorem unprotect_protect_request_of_plain (cipher : Bytes → Bytes → Bytes) (cS cR : Ctx) (m : Msg) (seq : Nat)
     (hm : Matching cS cR)
     (hsorted : m.opts.Pairwise (fun a b => a.1 ≤ b.1))
     (hno : ∀ o ∈ m.opts, o.1 ≠ optOscore)
@@ -177,12 +173,9 @@ theorem aad_eq_spec (alg : Int) (kid piv : Bytes) :
 theorem leftPad_length (k : Nat) (b : Bytes) (h : b.length ≤ k) : (leftPad k b).length = k := by
   simp [leftPad]; omega
 
-/-- The nonce determines kid and Partial IV (the link to C15's "no nonce reuse"): two nonces built
-from the same Common IV are equal only if the kids are equal and — PARTIAL: for Partial IVs of the
-same length — the Partial IVs are equal.  Full statement (Partial IVs as minimal-length encodings
-`pivBytes seq`, `pivBytes seq'` of sequence numbers below 2^40, possibly of different lengths):
-  (seq ≠ seq' ∨ kid ≠ kid') → nonce civ kid (pivBytes seq) ≠ nonce civ kid' (pivBytes seq'). -/
-theorem nonce_injective_partial (civ kid kid' piv piv' : Bytes) (hk : kid.length ≤ 7) (hk' : kid'.length ≤ 7)
+/-- Equal-length Partial IVs (minimal-length encoding or not): two nonces built from the same Common IV are equal only
+if the kids are equal and the Partial IVs are equal.  For Partial IVs of different lengths see `nonce_injective`. -/
+theorem nonce_injective_same_length (civ kid kid' piv piv' : Bytes) (hk : kid.length ≤ 7) (hk' : kid'.length ≤ 7)
     (hp : piv.length = piv'.length) (hp5 : piv.length ≤ 5)
     (h : nonce civ kid piv = nonce civ kid' piv') : kid = kid' ∧ piv = piv' := by
   have h0 := xorKs_inj _ _ _ h
@@ -200,6 +193,290 @@ theorem nonce_injective_partial (civ kid kid' piv piv' : Bytes) (hk : kid.length
   rw [hp] at hb
   exact ⟨List.append_cancel_left ha, List.append_cancel_left hb⟩
 
+/-! ### CBOR: the encodings that go into the AAD are injective and prefix-free -/
+
+/-- A CBOR head (major type + argument, RFC 8949 §3) followed by anything equals a head followed by anything only if
+major type, argument and continuation agree — injective and prefix-free, over the whole range of the encoding
+(major types 0..7, arguments below 2^64).  `cborUint n = cborHead 0 n`, `cborArray n = cborHead 4 n`. -/
+theorem cbor_head_injective (mt mt' a b : Nat) (x y : Bytes) (hmt : mt < 8) (hmt' : mt' < 8) (ha : a < 2 ^ 64)
+    (hb : b < 2 ^ 64) : cborHead mt a ++ x = cborHead mt' b ++ y → mt = mt' ∧ a = b ∧ x = y :=
+  cborHead_inj mt mt' a b x y hmt hmt' ha hb
+
+/-- byte strings (head + bytes): injective and prefix-free -/
+theorem cbor_bstr_injective (a b x y : Bytes) (ha : a.length < 2 ^ 64) (hb : b.length < 2 ^ 64) :
+    cborBstr a ++ x = cborBstr b ++ y → a = b ∧ x = y := cborBstr_inj a b x y ha hb
+
+/-- … and the other items used: unsigned integers, array heads, signed integers (−2^64 .. 2^64−1), text strings -/
+theorem cbor_items_injective :
+    (∀ (a b : Nat) (x y : Bytes), a < 2 ^ 64 → b < 2 ^ 64 → cborUint a ++ x = cborUint b ++ y → a = b ∧ x = y) ∧
+    (∀ (a b : Nat) (x y : Bytes), a < 2 ^ 64 → b < 2 ^ 64 → cborArray a ++ x = cborArray b ++ y → a = b ∧ x = y) ∧
+    (∀ (i j : Int) (x y : Bytes), (-(2 ^ 64) ≤ i ∧ i < 2 ^ 64) → (-(2 ^ 64) ≤ j ∧ j < 2 ^ 64) →
+        cborInt i ++ x = cborInt j ++ y → i = j ∧ x = y) ∧
+    (∀ (a b x y : Bytes), a.length < 2 ^ 64 → b.length < 2 ^ 64 → cborTstr a ++ x = cborTstr b ++ y → a = b ∧ x = y) :=
+  ⟨fun a b x y ha hb h => cborUint_inj a b x y ha hb h, fun a b x y ha hb h => cborArray_inj a b x y ha hb h,
+   fun i j x y hi hj h => cborInt_inj i j x y hi hj h, fun a b x y ha hb h => cborTstr_inj a b x y ha hb h⟩
+
+/-- §5.4: the external_aad (`aadArray`) and the Enc_structure (`aad`) determine algorithm, request_kid and
+request_piv: different (alg, kid, piv) never authenticate under the same associated data.  (Algorithm ids in the
+CBOR integer range, lengths such that the structure stays below 2^64 bytes.) -/
+theorem aad_injective (alg alg' : Int) (kid kid' piv piv' : Bytes)
+    (ha : -(2 ^ 64) ≤ alg ∧ alg < 2 ^ 64) (ha' : -(2 ^ 64) ≤ alg' ∧ alg' < 2 ^ 64)
+    (hl : kid.length + piv.length < 2 ^ 63) (hl' : kid'.length + piv'.length < 2 ^ 63) :
+    (aadArray alg kid piv = aadArray alg' kid' piv' → alg = alg' ∧ kid = kid' ∧ piv = piv') ∧
+    (aad alg kid piv = aad alg' kid' piv' → alg = alg' ∧ kid = kid' ∧ piv = piv') := by
+  have h1 : aadArray alg kid piv = aadArray alg' kid' piv' → alg = alg' ∧ kid = kid' ∧ piv = piv' :=
+    aadArray_inj alg alg' kid kid' piv piv' ha ha' (by omega) (by omega) (by omega) (by omega)
+  refine ⟨h1, fun h => h1 ?_⟩
+  have l1 := aadArray_length_le alg kid piv
+  have l2 := aadArray_length_le alg' kid' piv'
+  exact encStructure_inj _ _ (by omega) (by omega) h
+
+/-- the same for what libcoap computes (M), through `aad_eq_spec` -/
+theorem aad_injective_impl (alg alg' : Int) (kid kid' piv piv' : Bytes)
+    (ha : -(2 ^ 64) ≤ alg ∧ alg < 2 ^ 64) (ha' : -(2 ^ 64) ≤ alg' ∧ alg' < 2 ^ 64)
+    (hl : kid.length + piv.length < 2 ^ 63) (hl' : kid'.length + piv'.length < 2 ^ 63)
+    (h : M.Oscore.prepareAad (M.Oscore.prepareEAad alg kid piv) = M.Oscore.prepareAad (M.Oscore.prepareEAad alg' kid' piv')) :
+    alg = alg' ∧ kid = kid' ∧ piv = piv' := by
+  rw [(aad_eq_spec alg kid piv).2, (aad_eq_spec alg' kid' piv').2] at h
+  exact (aad_injective alg alg' kid kid' piv piv' ha ha' hl hl').2 h
+
+/-! ### nonce -/
+
+/-- libcoap's `oscore_generate_nonce` (M: two `memcpy`s into a zeroed 13-byte buffer, then xor) computes the §5.2
+nonce (S), for every Sender ID of at most 7 bytes (nonce length − 6), every Partial IV of at most 5 bytes and every
+Common IV of at least 13 bytes (13 in use). -/
+theorem nonce_eq_spec (civ kid piv : Bytes) (hk : kid.length ≤ 7) (hp : piv.length ≤ 5) (hc : 13 ≤ civ.length) :
+    M.Oscore.generateNonce civ kid piv = R.ok (nonce civ kid piv) := generateNonce_eq civ kid piv hk hp hc
+
+/-- **The nonce determines Sender ID and Partial IV.**  For Partial IVs in minimal-length encoding (`pivMinimal`: not
+empty, no leading zero byte except the single byte 0x00 for the value 0 — what every sender produces, D14.4), of any
+lengths up to 5, and ids up to 7 bytes: different (kid, Partial IV) give different nonces under the same Common IV. -/
+theorem nonce_injective (civ kid kid' piv piv' : Bytes) (hk : kid.length ≤ 7) (hk' : kid'.length ≤ 7)
+    (hp : piv.length ≤ 5) (hp' : piv'.length ≤ 5) (mp : pivMinimal piv = true) (mp' : pivMinimal piv' = true)
+    (hne : piv ≠ piv' ∨ kid ≠ kid') : nonce civ kid piv ≠ nonce civ kid' piv' := by
+  intro h
+  obtain ⟨h1, h2⟩ := nonce_inj civ kid kid' piv piv' hk hk' hp hp' mp mp' h
+  rcases hne with hne | hne
+  · exact hne h2
+  · exact hne h1
+
+/-- `pivBytes` (D14.4, libcoap's sender) is the minimal-length encoding, at most 5 bytes below 2^40, and one-to-one -/
+theorem pivBytes_minimal_encoding (n : Nat) (h : n < 2 ^ 40) :
+    pivMinimal (pivBytes n) = true ∧ (pivBytes n).length ≤ 5 ∧ ∀ m, m < 2 ^ 40 → pivBytes n = pivBytes m → n = m :=
+  ⟨pivBytes_minimal n (by omega), pivBytes_length n h, fun m hm e => pivBytes_inj n m (by omega) (by omega) e⟩
+
+/-- **The link for C15** ("distinct Partial IV ⇒ distinct nonce"): for sequence numbers below 2^40 encoded as the
+sender encodes them, different sequence numbers or different Sender IDs give different nonces. -/
+theorem distinct_piv_distinct_nonce (civ kid kid' : Bytes) (seq seq' : Nat) (hk : kid.length ≤ 7) (hk' : kid'.length ≤ 7)
+    (hs : seq < 2 ^ 40) (hs' : seq' < 2 ^ 40) (hne : seq ≠ seq' ∨ kid ≠ kid') :
+    nonce civ kid (pivBytes seq) ≠ nonce civ kid' (pivBytes seq') := by
+  apply nonce_injective civ kid kid' _ _ hk hk' (pivBytes_length seq hs) (pivBytes_length seq' hs')
+    (pivBytes_minimal seq (by omega)) (pivBytes_minimal seq' (by omega))
+  rcases hne with hne | hne
+  · exact Or.inl (fun e => hne (pivBytes_inj seq seq' (by omega) (by omega) e))
+  · exact Or.inr hne
+
+/-- … for a whole history: a sender context that never reuses a sequence number (C15's `piv_never_reused`) never
+reuses a nonce. -/
+theorem distinct_pivs_distinct_nonces (civ kid : Bytes) (seqs : List Nat) (hk : kid.length ≤ 7)
+    (hs : ∀ s ∈ seqs, s < 2 ^ 40) (hd : seqs.Pairwise (· ≠ ·)) :
+    (seqs.map fun s => nonce civ kid (pivBytes s)).Pairwise (· ≠ ·) := by
+  rw [List.pairwise_map]
+  induction seqs with
+  | nil => exact List.Pairwise.nil
+  | cons a l ih =>
+    rw [List.pairwise_cons] at hd ⊢
+    refine ⟨?_, ih (fun s h => hs s (by simp [h])) hd.2⟩
+    intro b hb
+    exact distinct_piv_distinct_nonce civ kid kid a b hk hk (hs a (by simp)) (hs b (by simp [hb])) (Or.inl (hd.1 b hb))
+
+/-! ### M = S: option value, option split / merge -/
+
+/-- libcoap's `oscore_encode_option_value` (M) is the §6.1 compression (S) whenever the value fits the buffer
+(Partial IV ≤ 5 bytes; a kid context, if present, 1..255 bytes — D14.10), and `oscore_decode_option_value` (M) is
+the §6.1 decompression (S) on every byte string: it rejects exactly when S does and returns the same fields. -/
+theorem option_value_eq_spec :
+    (∀ (bufLen : Nat) (piv : Bytes) (kidctx kid : Option Bytes), piv.length ≤ 5 →
+        (∀ c, kidctx = some c → 0 < c.length ∧ c.length ≤ 255) →
+        0 < bufLen → (optEncode ⟨piv, kidctx, kid⟩).length ≤ bufLen →
+        M.Oscore.encodeOptionValue bufLen piv kidctx kid = R.ok (optEncode ⟨piv, kidctx, kid⟩)) ∧
+    (∀ v : Bytes, M.Oscore.decodeOptionValue v =
+        match optDecode v with
+        | some o => R.ok ⟨o.piv, o.kidctx, o.kid⟩
+        | none => R.rej) := by
+  refine ⟨?_, decodeOptionValue_eq⟩
+  intro bufLen piv kidctx kid hp hc hb hfit
+  apply encodeOptionValue_eq bufLen piv kidctx kid hp hc
+  unfold optEncode at hfit
+  cases kidctx <;> cases kid <;> by_cases he : piv = [] <;> simp [he] at hfit ⊢ <;> omega
+
+/-- libcoap's protect loop (M: `coap_insert_option` into the outer and the plain PDU, one option at a time) is the
+class E / U filter of S, and its decrypt loop (M) is S's ordered merge — for every option list sorted by number
+(every PDU is) without an OSCORE or Proxy-Uri option (D14.10), requests and responses. -/
+theorem split_eq_spec :
+    (∀ (req : Bool) (os : List Opt), os.Pairwise (fun a b => a.1 ≤ b.1) → (∀ o ∈ os, o.1 ≠ 9 ∧ o.1 ≠ 35) →
+        M.Oscore.protectSplit req os = (outerOpts os, innerOpts req os)) ∧
+    (∀ (piv : Bytes) (outer inner : List Opt), inner.Pairwise (fun a b => a.1 ≤ b.1) → (∀ o ∈ inner, o.1 ≠ 9) →
+        M.Oscore.decryptMerge true piv outer inner = mergeOpts outer inner ∧
+        M.Oscore.decryptMerge false piv outer inner =
+          mergeOpts outer (inner.map fun o => if o.1 = optObserve then (o.1, last3 piv) else o)) := by
+  refine ⟨protectSplit_eq, ?_⟩
+  intro piv outer inner hs hno
+  have hf : inner.filter (fun o => decide (o.1 ≠ 9)) = inner := by
+    rw [List.filter_eq_self]; intro o ho; simpa using hno o ho
+  constructor
+  · rw [decryptMerge_eq true piv outer inner hs]
+    unfold innerSeen
+    rw [hf]
+    simp
+  · rw [decryptMerge_eq false piv outer inner hs]
+    unfold innerSeen
+    rw [hf]
+    congr 1
+    apply List.map_congr_left
+    intro o _
+    by_cases h6 : o.1 = 6 <;> simp [h6]
+
+/-- libcoap's `compose_info` (M) builds the HKDF `info` structure of RFC 8613 §3.2.1 (S), for every id, ID Context
+(absent or non-empty, D14.10), type string, length, and every algorithm id that fits libcoap's `uint8_t` -/
+theorem info_eq_spec (alg : Nat) (id : Bytes) (idctx : Option Bytes) (type : Bytes) (L : Nat) (ha : alg < 256)
+    (hc : idctx ≠ some []) : M.Oscore.composeInfo alg id idctx type L = info id idctx (alg : Int) type L := by
+  have hm : alg % 256 = alg := Nat.mod_eq_of_lt ha
+  have hi : cborInt (alg : Int) = cborHead 0 alg := by simp [cborInt]
+  cases idctx with
+  | none =>
+    simp only [M.Oscore.composeInfo, info, M.Oscore.putArray, M.Oscore.putBytes, M.Oscore.putText, M.Oscore.putNil, cborArray, cborBstr,
+      cborTstr, cborUint, cborNil, (orFirst_eq _).1, (orFirst_eq _).2.1, (orFirst_eq _).2.2.1, hm, hi]
+    simp only [putUnsigned_eq]
+  | some c =>
+    have : c.length > 0 := by
+      cases c with
+      | nil => exact absurd rfl hc
+      | cons _ _ => simp
+    simp only [M.Oscore.composeInfo, info, M.Oscore.putArray, M.Oscore.putBytes, M.Oscore.putText, cborArray, cborBstr,
+      cborTstr, cborUint, (orFirst_eq _).1, (orFirst_eq _).2.1, (orFirst_eq _).2.2.1, hm, hi, this, if_true]
+    simp only [putUnsigned_eq]
+
+/-- `split_merge_inverse` for responses: the outer options that survive §8.4 step 1, merged with the inner options
+after the recipient has set the Observe value (`obs`; the sender blanked it, D14.3), are the original options with
+that Observe value — for every sorted list without an OSCORE option. -/
+theorem split_merge_inverse_response (os : List Opt) (ov obs : Bytes) (hs : os.Pairwise (fun a b => a.1 ≤ b.1))
+    (hno : ∀ o ∈ os, o.1 ≠ optOscore) :
+    mergeOpts (withOscore (outerOpts os) ov)
+        ((innerOpts false os).map fun o => if o.1 = optObserve then (o.1, obs) else o) =
+      os.map fun o => if o.1 = optObserve then (o.1, obs) else o :=
+  split_merge_response os ov obs hs hno
+
+/-! ### the round trip, requests and responses -/
+
+/-- **Requests**: `unprotect ctxR (protect ctxS m) = ok m` with the sender's binding, for every block cipher, matching
+contexts, every message with a code below 256 whose options are sorted by number, numbered ≤ 65535 and at most 65804
+bytes long (what RFC 7252 §3.1 can carry), every sequence number, as long as the OSCORE option value fits its 255
+bytes.  (That the message carries no OSCORE option and that `seq ≤ 2^40 − 2` follow from `protectRequest … = some r`.)
+The inner option-codec round trip is `decPlain_encPlain` (from C01's 13/14-scheme lemmas). -/
+theorem unprotect_protect_request (cipher : Bytes → Bytes → Bytes) (cS cR : Ctx) (m : Msg) (seq : Nat)
+    (hm : Matching cS cR)
+    (hsorted : m.opts.Pairwise (fun a b => a.1 ≤ b.1))
+    (hcode : m.code < 256)
+    (hwire : ∀ o ∈ m.opts, o.1 ≤ 65535 ∧ o.2.length ≤ 65804)
+    (hopt : (optEncode ⟨pivBytes seq, cS.idctx, some cS.sid⟩).length ≤ 255) :
+    ∀ r, protectRequest cipher cS m seq = some r → unprotectRequest cipher cR r.1 = .ok m r.2 := by
+  intro r hr
+  have hany : (m.opts.any fun o => decide (o.1 = optOscore)) = false := by
+    cases h : (m.opts.any fun o => decide (o.1 = optOscore)) with
+    | false => rfl
+    | true => simp [protectRequest, h] at hr
+  have hseq : seq ≤ maxSeq := by
+    by_cases h : seq > maxSeq
+    · simp [protectRequest, hany, h] at hr
+    · omega
+  have hno : ∀ o ∈ m.opts, o.1 ≠ optOscore := by
+    intro o ho; have := List.any_eq_false.mp hany o ho; simpa using this
+  have hpiv : (pivBytes seq).length ≤ 5 := pivBytes_length seq (by unfold maxSeq at hseq; omega)
+  exact unprotect_protect_request_of_plain cipher cS cR m seq hm hsorted hno hseq hpiv hopt
+    (decPlain_encPlain m.code _ m.payload hcode (innerOpts_wire true m.opts hsorted hwire)) r hr
+
+/-- **Responses**: the recipient of `protectResponse … m` (same binding `b` on both sides: the request's kid, Partial
+IV and nonce) recovers `m` with the Observe value the recipient derives from the Partial IV (`normalize`, D14.3) —
+the response's own Partial IV if it carries one (`seq = some n`, fresh nonce), else the request's (request nonce
+reused, D14.5).  Type and message id are outside the protected content (D14.7: `sepMid`), they are the outer
+message's.  For every cipher, matching contexts, binding, code < 256, encodable sorted options. -/
+theorem unprotect_protect_response (cipher : Bytes → Bytes → Bytes) (cS cR : Ctx) (b : Binding) (m : Msg)
+    (seq : Option Nat) (sepMid : Option Nat)
+    (hm : Matching cS cR)
+    (hsorted : m.opts.Pairwise (fun a b => a.1 ≤ b.1))
+    (hcode : m.code < 256)
+    (hwire : ∀ o ∈ m.opts, o.1 ≤ 65535 ∧ o.2.length ≤ 65804) :
+    ∀ r, protectResponse cipher cS b m seq sepMid = some r →
+      unprotectResponse cipher cR (some b) r =
+        .ok { normalize false (match seq with | some n => pivBytes n | none => b.piv) m with type := r.type, mid := r.mid } b := by
+  obtain ⟨h1, h2, h3, h4, h5⟩ := hm
+  intro r hr
+  have hany : (m.opts.any fun o => decide (o.1 = optOscore)) = false := by
+    cases h : (m.opts.any fun o => decide (o.1 = optOscore)) with
+    | false => rfl
+    | true => simp [protectResponse, h] at hr
+  have hno : ∀ o ∈ m.opts, o.1 ≠ optOscore := by
+    intro o ho; have := List.any_eq_false.mp hany o ho; simpa using this
+  have hplain := decPlain_encPlain m.code _ m.payload hcode (innerOpts_wire false m.opts hsorted hwire)
+  cases seq with
+  | none =>
+    unfold protectResponse at hr
+    simp only [hany, if_false, Bool.false_eq_true] at hr
+    injection hr with hr
+    subst hr
+    unfold unprotectResponse
+    simp only [oscoreValue_withOscore _ _ (outerOpts_no_oscore m.opts), aeadSeal_ne_nil, if_false]
+    rw [option_value_roundtrip ⟨[], none, none⟩ (by simp) (by simp [optEncode])]
+    simp only [h2, h5, if_true, aeadOpen_aeadSeal, hplain]
+    simp only [obsSet_lambda, split_merge_response m.opts _ _ hsorted hno, normalize]
+    rfl
+  | some n =>
+    have hseq : n ≤ maxSeq := by
+      by_cases h : n > maxSeq
+      · simp [protectResponse, hany, h] at hr
+      · omega
+    have hs : ¬ n > maxSeq := by omega
+    have hlen : (pivBytes n).length ≤ 5 := pivBytes_length n (by unfold maxSeq at hseq; omega)
+    have hne : pivBytes n ≠ [] := pivBytes_ne_nil n (by unfold maxSeq at hseq; omega)
+    unfold protectResponse at hr
+    simp only [hany, hs, decide_false, if_false, Bool.false_eq_true] at hr
+    injection hr with hr
+    subst hr
+    unfold unprotectResponse
+    simp only [oscoreValue_withOscore _ _ (outerOpts_no_oscore m.opts), aeadSeal_ne_nil, if_false]
+    rw [option_value_roundtrip ⟨pivBytes n, none, none⟩ hlen (by simp [optEncode, hne]; omega)]
+    simp only [h1, h2, h3, h5, hne, if_false, aeadOpen_aeadSeal, hplain]
+    simp only [obsSet_lambda, split_merge_response m.opts _ _ hsorted hno, normalize]
+    rfl
+
+/-- **`unprotect ∘ protect`, both directions**, for every block cipher, matching contexts (Sender ID + ID Context short
+enough for the 255-byte OSCORE option: ≤ 248 bytes together), every message with code < 256 and encodable sorted
+options: a protected request is recovered exactly, a protected response is recovered up to the Observe value the
+recipient derives (D14.3) and the outer type / message id (D14.7). -/
+theorem unprotect_protect (cipher : Bytes → Bytes → Bytes) (cS cR : Ctx) (m : Msg)
+    (hm : Matching cS cR)
+    (hsorted : m.opts.Pairwise (fun a b => a.1 ≤ b.1))
+    (hcode : m.code < 256)
+    (hwire : ∀ o ∈ m.opts, o.1 ≤ 65535 ∧ o.2.length ≤ 65804)
+    (hid : cS.sid.length + (cS.idctx.getD []).length ≤ 248) :
+    (∀ seq r, protectRequest cipher cS m seq = some r → unprotectRequest cipher cR r.1 = .ok m r.2) ∧
+    (∀ b seq sepMid r, protectResponse cipher cS b m seq sepMid = some r →
+      unprotectResponse cipher cR (some b) r =
+        .ok { normalize false (match seq with | some n => pivBytes n | none => b.piv) m with type := r.type, mid := r.mid } b) := by
+  refine ⟨?_, fun b seq sepMid => unprotect_protect_response cipher cS cR b m seq sepMid hm hsorted hcode hwire⟩
+  intro seq r hr
+  have hseq : seq ≤ maxSeq := by
+    by_cases h : seq > maxSeq
+    · by_cases h' : (m.opts.any fun o => decide (o.1 = optOscore)) = true <;> simp [protectRequest, h, h'] at hr
+    · omega
+  have hpiv : (pivBytes seq).length ≤ 5 := pivBytes_length seq (by unfold maxSeq at hseq; omega)
+  refine unprotect_protect_request cipher cS cR m seq hm hsorted hcode hwire ?_ r hr
+  unfold optEncode
+  cases hc : cS.idctx with
+  | none => simp [hc] at hid ⊢; omega
+  | some c => simp [hc] at hid ⊢; omega
+
 /-! ### Non-vacuity: concrete instances of the hypotheses -/
 
 example : (pivBytes 20).length ≤ 5 ∧ (pivBytes (2 ^ 40 - 2)).length ≤ 5 ∧ 2 ^ 40 - 2 ≤ maxSeq := by decide
@@ -212,7 +489,7 @@ example : optDecode (optEncode ⟨[0x14], none, some []⟩) = some ⟨[0x14], no
 example : Matching ⟨[], [1], none, 10, [1, 2], [3, 4], [5]⟩ ⟨[1], [], none, 10, [3, 4], [1, 2], [5]⟩ :=
   ⟨rfl, rfl, rfl, rfl, rfl⟩
 
-/-- `hplain` of `unprotect_protect_partial` on the RFC 8613 C.4 request (GET, Uri-Host outer, Uri-Path "tv1" inner) -/
+/-- `hplain` of `unprotect_protect_request_of_plain` on the RFC 8613 C.4 request (GET, Uri-Host outer, Uri-Path "tv1" inner) -/
 example : decPlain (encPlain 1 (innerOpts true [(3, [0x6c]), (11, [0x74, 0x76, 0x31])]) []) =
     some (1, innerOpts true [(3, [0x6c]), (11, [0x74, 0x76, 0x31])], []) := by decide
 
@@ -221,5 +498,61 @@ example : ([(3, [0x6c]), (11, [0x74, 0x76, 0x31])] : List Opt).Pairwise (fun a b
 /-- inner / outer split of a request with Observe, Uri-Host, Uri-Path, Max-Age, Proxy-Scheme -/
 example : outerOpts [(3, [1]), (6, []), (11, [2]), (14, [3]), (39, [4])] = [(3, [1]), (6, []), (39, [4])] ∧
     innerOpts true [(3, [1]), (6, []), (11, [2]), (14, [3]), (39, [4])] = [(6, []), (11, [2]), (14, [3])] := by decide
+
+/-! ### Non-vacuity of the injectivity / M = S / round-trip theorems -/
+
+/-- heads of all five widths; a byte string is not a prefix of another; kid / piv boundaries in the AAD are not ambiguous -/
+example : cborHead 2 23 = [0x57] ∧ cborHead 2 24 = [0x58, 24] ∧ cborHead 4 256 = [0x99, 1, 0] ∧
+    cborHead 0 65536 = [0x1a, 0, 1, 0, 0] ∧ cborHead 0 4294967296 = [0x1b, 0, 0, 0, 1, 0, 0, 0, 0] := by decide
+example : cborBstr [1] ++ [2] ≠ cborBstr [1, 2] ++ [] ∧ cborBstr [] ++ [0x41, 7] ≠ cborBstr [7] := by decide
+example : aad 10 [1] [0x14] ≠ aad 10 [] [1, 0x14] ∧ aad 10 [1] [0x14] ≠ aad (-10) [1] [0x14] ∧
+    aadArray 10 [] [0x14] = [0x85, 0x01, 0x81, 0x0a, 0x40, 0x41, 0x14, 0x40] := by decide
+
+/-- RFC 8613 C.4 nonce through M; and the limits of `nonce_eq_spec` are sharp: 8 id bytes overwrite the length
+byte (M ≠ S), 9 id bytes are out of bounds -/
+example : M.Oscore.generateNonce [0x46, 0x22, 0xd4, 0xdd, 0x6d, 0x94, 0x41, 0x68, 0xee, 0xfb, 0x54, 0x98, 0x7c] [] [0x14] =
+    R.ok [0x46, 0x22, 0xd4, 0xdd, 0x6d, 0x94, 0x41, 0x68, 0xee, 0xfb, 0x54, 0x98, 0x68] := by decide
+example : M.Oscore.generateNonce (List.replicate 13 0) [1, 2, 3, 4, 5, 6, 7, 8] [9] ≠
+    R.ok (nonce (List.replicate 13 0) [1, 2, 3, 4, 5, 6, 7, 8] [9]) ∧
+    M.Oscore.generateNonce (List.replicate 13 0) (List.replicate 9 1) [9] = R.oob := by decide
+
+/-- why `nonce_injective` needs minimal-length Partial IVs: a leading zero byte is invisible in the nonce -/
+example : nonce (List.replicate 13 0) [] [0, 1] = nonce (List.replicate 13 0) [] [1] ∧ pivMinimal [0, 1] = false ∧
+    pivMinimal [0] = true ∧ pivMinimal [1, 0] = true ∧ pivMinimal [] = false := by decide
+example : pivBytes 0 = [0] ∧ pivBytes 255 = [0xff] ∧ pivBytes 256 = [1, 0] ∧ pivBytes (2 ^ 40 - 1) = [0xff, 0xff, 0xff, 0xff, 0xff] := by
+  decide
+example : nonce (List.replicate 13 0) [1] (pivBytes 255) ≠ nonce (List.replicate 13 0) [1] (pivBytes 256) := by decide
+example : ([0, 1, 255, 256, 2 ^ 40 - 2] : List Nat).Pairwise (· ≠ ·) := by decide
+
+/-- option value through M (RFC 8613 C.5 shape); an empty kid context is where M and S differ (excluded by D14.10);
+a buffer that is too small is refused -/
+example : M.Oscore.encodeOptionValue 48 [0x14] (some [0x37, 0xcb]) (some [1]) = R.ok (optEncode ⟨[0x14], some [0x37, 0xcb], some [1]⟩) ∧
+    M.Oscore.encodeOptionValue 48 [0x14] (some []) none ≠ R.ok (optEncode ⟨[0x14], some [], none⟩) ∧
+    M.Oscore.encodeOptionValue 4 [0x14] (some [0x37, 0xcb]) (some [1]) = R.rej := by decide
+example : M.Oscore.decodeOptionValue [0x19, 0x14, 0x02, 0x37, 0xcb, 0x01] = R.ok ⟨[0x14], some [0x37, 0xcb], some [1]⟩ ∧
+    M.Oscore.decodeOptionValue [0x0e] = R.rej ∧ optDecode [0x0e] = none := by decide
+
+/-- the split through M; Proxy-Uri (35) is where M and S differ (excluded by D14.10); unsorted input is sorted by M -/
+example : M.Oscore.protectSplit false [(3, [1]), (6, [5]), (11, [2]), (14, [3]), (39, [4])] =
+    ([(3, [1]), (6, [5]), (39, [4])], [(6, []), (11, [2]), (14, [3])]) ∧
+    M.Oscore.protectSplit true [(35, [1])] ≠ (outerOpts [(35, [1])], innerOpts true [(35, [1])]) ∧
+    M.Oscore.protectSplit true [(11, [1]), (8, [2])] ≠ (outerOpts [(11, [1]), (8, [2])], innerOpts true [(11, [1]), (8, [2])]) := by
+  decide
+example : M.Oscore.decryptMerge false [0, 1, 2, 3] [(3, [1]), (9, [7]), (39, [4])] [(6, []), (11, [2])] =
+    [(3, [1]), (6, [1, 2, 3]), (11, [2]), (39, [4])] := by decide
+
+/-- the hypotheses of `unprotect_protect` on a notification-like message, and `protect` does produce something (toy cipher) -/
+example : (∀ o ∈ ([(6, [1]), (11, [0x74, 0x76, 0x31]), (12, [])] : List Opt), o.1 ≤ 65535 ∧ o.2.length ≤ 65804) := by decide
+example : (protectRequest (fun _ b => b) ⟨[], [1], none, 10, [1, 2], [3, 4], [5]⟩ ⟨0, 1, 7, [9], [(3, [0x6c]), (11, [0x74])], [1]⟩ 20).isSome = true ∧
+    (protectResponse (fun _ b => b) ⟨[1], [], none, 10, [3, 4], [1, 2], [5]⟩ ⟨[], [0x14], [0]⟩ ⟨2, 69, 7, [9], [(6, [1]), (12, [])], [1]⟩
+      (some 300) none).isSome = true ∧
+    (protectResponse (fun _ b => b) ⟨[1], [], none, 10, [3, 4], [1, 2], [5]⟩ ⟨[], [0x14], [0]⟩ ⟨2, 69, 7, [9], [(12, [])], [1]⟩
+      none (some 8)).isSome = true := by decide
+/-- D14.3: what the recipient of a notification with Partial IV 0x012c sees -/
+example : normalize false (pivBytes 300) ⟨2, 69, 7, [9], [(6, [1]), (12, [])], [1]⟩ = ⟨2, 69, 7, [9], [(6, [1, 0x2c]), (12, [])], [1]⟩ := by
+  decide
+
+/-- RFC 8613 C.1.1 `info` for the Common IV through M -/
+example : M.Oscore.composeInfo 10 [] none labelIV 13 = [0x85, 0x40, 0xf6, 0x0a, 0x62, 0x49, 0x56, 0x0d] := by decide
 
 end Coap.C14
